@@ -21,6 +21,7 @@ import (
 	"time"
 
 	"github.com/EdgeCast/vflow/ipfix"
+	"github.com/EdgeCast/vflow/reader"
 )
 
 var vJSONBuf = new(bytes.Buffer)
@@ -64,20 +65,21 @@ type vHdr struct {
 }
 
 type vRes struct {
-	St    string     `json:"st"` // ok | nonfatal | reject | panic
-	Hdr   *vHdr      `json:"hdr,omitempty"`
-	Recs  [][]vField `json:"recs"`
-	Err   string     `json:"err,omitempty"`
-	Panic string     `json:"panic,omitempty"`
-	JSON  []byte     `json:"json,omitempty"`
-	JErr  string     `json:"jerr,omitempty"`
-	Agent string     `json:"agent,omitempty"`
-	Alloc uint64     `json:"alloc,omitempty"`
-	Ns    int64      `json:"ns,omitempty"`
-	ExpOK bool       `json:"exp_unchanged"`
-	MaxF  int        `json:"maxf"`
-	NRec  int        `json:"nrec"`
-	Specs [][]int    `json:"specs,omitempty"`
+	St          string     `json:"st"` // ok | nonfatal | reject | panic
+	Hdr         *vHdr      `json:"hdr,omitempty"`
+	Recs        [][]vField `json:"recs"`
+	Err         string     `json:"err,omitempty"`
+	Panic       string     `json:"panic,omitempty"`
+	JSON        []byte     `json:"json,omitempty"`
+	JErr        string     `json:"jerr,omitempty"`
+	Agent       string     `json:"agent,omitempty"`
+	Alloc       uint64     `json:"alloc,omitempty"`
+	Ns          int64      `json:"ns,omitempty"`
+	ExpOK       bool       `json:"exp_unchanged"`
+	ReaderFresh bool       `json:"reader_fresh"`
+	MaxF        int        `json:"maxf"`
+	NRec        int        `json:"nrec"`
+	Specs       [][]int    `json:"specs,omitempty"`
 }
 
 type vJobRes struct {
@@ -196,6 +198,12 @@ func vRunMsg(cache MemCache, m vMsg, wantJSON, measure bool) (res vRes) {
 			res.St, res.Panic = "panic", fmt.Sprint(p)
 		}
 		res.ExpOK = bytes.Equal(exp, expCopy)
+		// a reader made NOW (the next datagram's) starts from nothing, whatever was decoded before it
+		fresh := make([]byte, 10, 16)
+		fr := reader.NewReader(fresh)
+		ok := fr.ReadCount() == 0 && fr.Len() == 10
+		fr.Read(3)
+		res.ReaderFresh = ok && fr.ReadCount() == 3 && fr.Len() == 7
 	}()
 	var ms0, ms1 runtime.MemStats
 	if measure {
